@@ -1711,3 +1711,31 @@ def rule_positions_of_the_list_itself(ctx, rep: Report, rid="P7", package=TI):
                     nontrivial=idx_used)
     if n < 1:
         raise AnalysisError(f"{rep.prop}/{rid}: no enumerate()/index() site found in {package}")
+
+
+def rule_flat_name_of_nested_arguments(ctx, rep: Report, rid="N10"):
+    """The identifier of an instantiation glues the names of its arguments; an argument that is itself an instantiation
+    contributes the names of *its* arguments as well, at every depth (`Store<pair<size_t, vector<Pose2>>>` and
+    `...<Pose3>>>` get different names).  Decided by running Typename.instantiated_name with the analyser's interpreter on
+    sample type trees of depth 1, 2 and 3."""
+    from .rules_matlab import SampleObj, mini_exec, _PathEval
+    prog = ctx.prog
+    ci = prog.cls("Typename")
+    fn = prog.method("Typename", "instantiated_name")
+
+    def T(name, *args):
+        return SampleObj(name=name, instantiations=list(args), namespaces=[])
+
+    def leaves(t):
+        return t["name"] + "".join(leaves(x) for x in t["instantiations"])
+    samples = [T("double"), T("vector", T("Pose2")), T("pair", T("size_t"), T("vector", T("Pose2"))), T("pair", T("size_t"), T("vector", T("Pose3"))),
+               T("vector", T("vector", T("double"))), T("map", T("Key"), T("pair", T("A"), T("vector", T("B"))))]
+    try:
+        got = [mini_exec(fn, {"self": t}, methods={"instantiated_name": fn}) for t in samples]
+    except _PathEval.Unknown as ex:
+        raise AnalysisError(f"Typename.instantiated_name: written in a way this rule cannot evaluate ({ex})")
+    want = [leaves(t) for t in samples]
+    rep.add(rid, "Typename.instantiated_name:the names of nested arguments are included at every depth", got == want,
+            f"for double, vector<Pose2>, pair<size_t, vector<Pose2>>, pair<size_t, vector<Pose3>>, vector<vector<double>>, map<Key, pair<A, vector<B>>> the "
+            f"identifier is {got}, it has to be {want}: arguments that differ only below the first level get the same name (two classes, one Python name)",
+            f"{ci.mod.rel}:{fn.lineno}")
